@@ -545,6 +545,9 @@ func generateGhost(p *packages.Package, funcs map[string]*ssa.Function, cs *Cont
 		for i, c := range fc.Relies {
 			emit(c, fmt.Sprintf("zz_rely_%s_%d", mn, i), append([]ghostParam{}, base...), "bool", target, false)
 		}
+		for i, c := range fc.Rejects {
+			emit(c, fmt.Sprintf("zz_rej_%s_%d", mn, i), append(append([]ghostParam{}, base...), letPs...), "bool", target, false)
+		}
 		for i, c := range fc.Ensures {
 			ps := append(append(append([]ghostParam{}, base...), letPs...), resPs...)
 			emit(c, fmt.Sprintf("zz_ens_%s_%d", mn, i), ps, "bool", target, true) // locals of the function: their value at the return
